@@ -96,7 +96,6 @@ func New(tr drpc.Transport) *Manager {
 func NewWithOptions(tr drpc.Transport, opts Options) *Manager {
 	m := &Manager{
 		tr:   tr,
-		wr:   drpcwire.NewWriter(tr, opts.WriterBufferSize),
 		rd:   drpcwire.NewReaderWithOptions(tr, opts.Reader),
 		opts: opts,
 
@@ -104,6 +103,10 @@ func NewWithOptions(tr drpc.Transport, opts Options) *Manager {
 		sfin:    make(chan struct{}, 1),
 		streams: make(chan streamInfo),
 	}
+
+	// a failed write may have left a partial frame on the transport, so the
+	// writer terminates the manager on any write error.
+	m.wr = drpcwire.NewWriter(managerWriter{m}, opts.WriterBufferSize)
 
 	// initialize the stream buffer
 	m.sbuf.init()
@@ -123,6 +126,18 @@ func NewWithOptions(tr drpc.Transport, opts Options) *Manager {
 	go m.manageStreams()
 
 	return m
+}
+
+// managerWriter writes to the transport and terminates the manager if the
+// write fails.
+type managerWriter struct{ m *Manager }
+
+func (w managerWriter) Write(p []byte) (n int, err error) {
+	n, err = w.m.tr.Write(p)
+	if err != nil {
+		w.m.terminate(managerClosed.Wrap(err))
+	}
+	return n, err
 }
 
 // String returns a string representation of the manager.
